@@ -384,6 +384,22 @@ def opObjective (op : String) : P String := do
       return "ok " ++ Wire.render (lmnnObjective L X (fun i => y.getD i.val 0) targets reg)
   | _ => throw s!"unknown op {op}"
 
+/-- C13: SDML's graphical-lasso input, objective, duality gap and dual feasibility at a matrix `M` (Float twin) -/
+def opSdml : P String := do
+  let d ← nat; let np ← nat
+  let P := Mat.ofStore (← readStore Float d d)
+  let balance ← scalar Float; let lam ← scalar Float
+  let vs ← readVecs Float np d; let ys ← arr Float np
+  let Ms ← readStore Float d d
+  finish
+  let pairs := vs.zip ys.toList
+  let Es := (sdmlEmpCov P balance pairs).store
+  let E := Mat.ofStore Es; let M := Mat.ofStore Ms
+  let (inv, logdet) := gaussJordan d (Ms.toArray.map (·.toArray))
+  let W : Mat Float d d := fun a b => (inv.getD a.val #[]).getD b.val 0
+  let feas := sdmlDualFeasible E W lam (lam * 0.05 + 1e-6)
+  return "ok " ++ renderArr (E.toArray ++ #[sdmlObjective E M logdet lam, sdmlGap E M lam, if feas then 1.0 else 0.0])
+
 def optInt : P (Option Int) := do
   let t ← next
   if t == "none" then return none
@@ -422,6 +438,7 @@ def dispatch : P String := do
   | "sdp_check" | "cfm_eig" | "cfm_diag" | "pinv_eig" | "init_metric" => opPsd op
   | "pairs" | "chunks" | "knn_class" | "knn_clip" => opConstraints op
   | "form" => opForm
+  | "sdml_eval" => opSdml
   | "nca_obj" | "mlkr_obj" | "lmnn_obj" => opObjective op
   | "lsml_eval" => opLsml
   | "scml_replay" => opScml
